@@ -242,6 +242,9 @@ class C08(Monitor):
         t2 = run_case(dict(settings=dict(st), regions=regs2, steps=s2))
         common_stats(t1, stats, sets)
         stats["class:" + enc["kind"]] += 1
+        stats["tracked_frame_differs_from_k2_arithmetic_intervals"] += len(t2.kmis)
+        if any(e.get("mech") == "g92_xyz_offset_sign" for e in t2.div_log):
+            stats["cases_with_k2_divergence"] += 1
         v = []
         if t1.truncated or t2.truncated or t1.exc or t2.exc:
             stats["pairs_truncated"] += 1
